@@ -175,6 +175,42 @@ def reflected_operators(index: RepoIndex, rep, rule: str) -> None:
                   f'{cname}.{r} accepts what __{o}__ accepts')
 
 
+def from_positions_box(index: RepoIndex, rep, rule: str, gi) -> None:
+    """Area.from_positions(ps) is the bounding box of ps, in whatever order they come (the
+    image of an area under a turn enumerates its positions in decreasing order).  Folded at
+    small constant position lists in increasing, decreasing and mixed order; a list where the
+    result is not the box is a counterexample, an unreadable body is no verdict."""
+    try:
+        fp = index.func(GEOM, 'Area.from_positions')
+    except Exception:       # noqa: BLE001
+        return
+    pn = fp.node.args.args[0].arg if fp.node.args.args else None
+    if pn in (None, 'cls') and len(fp.node.args.args) > 1:
+        pn = fp.node.args.args[1].arg
+
+    def pt(y, x):
+        return ('P', (Aff.const(y), Aff.const(x)))
+    samples = ([(3, 7), (2, 4)], [(2, 4), (3, 7)], [(2, 7), (2, 4)], [(5, 5)],
+               [(4, 1), (3, 2), (2, 3)], [(1, 1), (1, 3), (1, 2)])
+    site = f'{GEOM}:Area.from_positions:{fp.node.lineno}'
+    for pts in samples:
+        ys, xs = [p[0] for p in pts], [p[1] for p in pts]
+        want = ('A', ((Aff.const(min(ys)), Aff.const(max(ys))),
+                      (Aff.const(min(xs)), Aff.const(max(xs)))))
+        try:
+            got = gi.call(fp, {pn: ('U', tuple(pt(*p) for p in pts))})
+        except (AnalysisError, RecursionError) as err:
+            rep.undecided(rule, site, f'not readable at {pts}: {str(err)[:80]}')
+            return
+        if got != want:
+            rep.violation(rule, GEOM, 'Area.from_positions', fp.node.lineno, f'{pts} -> {got}',
+                          f'Area.from_positions({pts}) is {got}, not the bounding box '
+                          f'{want}: the area spanned by transformed positions is not the '
+                          f'transformed area')
+            return
+    rep.holds(rule, site, f'bounding box at {len(samples)} position lists')
+
+
 def value_classes_final(index: RepoIndex, rep, rule: str) -> None:
     """Position, Area, Shape and Transform compare by the equality their dataclass decorator
     generates, which is class-strict (`other.__class__ is self.__class__`): an instance of a
@@ -224,6 +260,7 @@ def run(index: RepoIndex, rep) -> None:
     g = Geometry(index)
     O = g.orients
     gi = GeoInterp(g)
+    from_positions_box(index, rep, 'C18.R3', gi)
     rep.rule('C18.R1', 'rotation table: total, FORWARD two-sided identity, _orientation_neg '
              'two-sided inverse, associative, cyclic of order 4', floor=80)
     rep.rule('C18.R2', 'Orientation * Position: linear, rotation matrices (orthogonal, det 1), '
